@@ -487,6 +487,15 @@ func (fv *FuncVerifier) execBranch(st *State, s *ast.BranchStmt) {
 	case token.GOTO, token.FALLTHROUGH:
 		fv.unsupported("goto/fallthrough")
 	}
+	if fv.regionStart.IsValid() && (s.Tok == token.BREAK || s.Tok == token.CONTINUE) && label == "" && len(fv.frames) == 1 {
+		// leaving the verified region: its postconditions are due here (no result values)
+		fv.note("break/continue out of the region is a region exit")
+		fv.regionExit = append(fv.regionExit, s.Tok.String())
+		fv.checkPost(st, nil, s)
+		st.dead = true
+		st.pc = "false"
+		return
+	}
 	fv.unsupported("branch without target")
 	st.dead = true
 	st.pc = "false"
